@@ -584,7 +584,19 @@ class Parser:
         ast, macros = self._parse('void __dummy(\n%s\n);' % cdecl)[:2]
         if macros:
             raise CDefError("a type string cannot contain '#define'")
-        exprnode = ast.ext[-1].type.args.params[0]
+        decl = ast.ext[-1]
+        functype = decl.type
+        # the text must have been parsed as the single parameter of the
+        # single declaration 'void __dummy(...)'
+        if (getattr(decl, 'name', None) != '__dummy' or
+                sum(getattr(d, 'name', None) == '__dummy'
+                    for d in ast.ext) != 1 or
+                not isinstance(functype, pycparser.c_ast.FuncDecl) or
+                not isinstance(functype.type, pycparser.c_ast.TypeDecl) or
+                functype.args is None or
+                len(functype.args.params) != 1):
+            raise CDefError("expected a single C type, got %r" % (cdecl,))
+        exprnode = functype.args.params[0]
         if isinstance(exprnode, pycparser.c_ast.ID):
             raise CDefError("unknown identifier '%s'" % (exprnode.name,))
         return self._get_type_and_quals(exprnode.type)
